@@ -8,6 +8,8 @@ fn run_cmd(cmd: &str, args: &Args) -> String {
         "doc" => tree::cmd_doc(args),
         "val" => tree::cmd_val(args),
         "docf" => tree::cmd_docf(args),
+        "rt" => tree::cmd_rt(args),
+        "docv" => tree::cmd_docv(args),
         _ => "unknown-command".to_string(),
     }
 }
